@@ -9,6 +9,11 @@ import (
 
 // treeSpaces runs body over the S3 token spaces and the corpus (the grammar spaces are added by grammar-based checks).
 func treeSpaces(r *explore.Run, gramBase int, body func(c *explore.Ctx, e *Entry, s string, res ParseResult)) {
+	treeSpacesMode(r, gramBase, "both", body)
+}
+
+// treeSpacesMode: editMode selects which S5 spaces the check needs ("both", "full" or "light").
+func treeSpacesMode(r *explore.Run, gramBase int, editMode string, body func(c *explore.Ctx, e *Entry, s string, res ParseResult)) {
 	wrap := func(c *explore.Ctx, e *Entry, s string) {
 		res := e.Call(s)
 		if res.Panic != nil {
@@ -20,7 +25,7 @@ func treeSpaces(r *explore.Run, gramBase int, body func(c *explore.Ctx, e *Entry
 	tokenSpaces(r, explore.Options{}, false, wrap)
 	corpusSpace(r, wrap)
 	grammarTreeSpace(r, gramBase, wrap)
-	editSpace(r, 1, wrap)
+	editSpaceMode(r, 1, editMode, wrap)
 	corpusEditSpace(r, wrap)
 	byteTreeSpace(r, wrap)
 }
@@ -42,7 +47,7 @@ func C04(r *explore.Run) {
 	r.Rule = "every tree returned for every S3 token string (4 entry points per alphabet), every corpus file and every grammar sentence (with and without errors): Walk/Inspect/Preorder on the root and SQL()/Pos()/End() on every node reached by the reflective walker R5; " +
 		"non-trivial = tree with >=2 nodes; distinct by (entry point, error/no error, tree shape)"
 	r.Assume = []string{"nodes are enumerated by reflection (R5), not by Walk, so a Walk defect cannot hide nodes"}
-	treeSpaces(r, 3, func(c *explore.Ctx, e *Entry, s string, res ParseResult) {
+	treeSpaces(r, 2, func(c *explore.Ctx, e *Entry, s string, res ParseResult) {
 		for sig, d := range checkTotalMethods(res) {
 			c.Violation(sig, e.Name+": "+s, d)
 		}
@@ -73,7 +78,7 @@ func C09(r *explore.Run) {
 	r.Rule = "every call on the S3 token strings, corpus files and grammar sentences: nil error => no Bad node and every token inside a returned node; Bad node => error; MultiError has >= one element per BadNode, messages non-empty, positions in range; " +
 		"non-trivial = call returning an error; distinct by (entry point, #errors, #Bad nodes, tree shape)"
 	r.Assume = []string{"'input remains' is judged from the root's End(), only when that End is a token end (position soundness is C05)"}
-	treeSpaces(r, 3, func(c *explore.Ctx, e *Entry, s string, res ParseResult) {
+	treeSpaces(r, 2, func(c *explore.Ctx, e *Entry, s string, res ParseResult) {
 		for sig, d := range checkErrorContract(e, s, res) {
 			c.Violation(sig, e.Name+": "+s, d)
 		}
